@@ -658,7 +658,7 @@ def ops (op : String) (j : Json) : Option (Except String Json) :=
       let a ← v.getArr?
       let cs := a.toList.map cfgOfJson
       return Json.arr (EP.all.map fun ep =>
-        Json.mkObj [("ep", Json.str (reprStr ep)), ("unsafe", natsJson ((cs.zipIdx.filter fun (c, _) => !safe (prog ep c)).map (·.2)))]).toArray)
+        Json.mkObj [("ep", Json.str (reprStr ep)), ("rejected", natsJson ((cs.zipIdx.filter fun (c, _) => !safe (prog ep c)).map (·.2)))]).toArray)
   | _ => none
 
 end GSV.Model.Heap
